@@ -900,4 +900,132 @@ Section Inv.
       rewrite alookup_aset_other; [exact E|exact node_eqb_eq|]. intro X. apply Hn. symmetry. exact X.
     - destruct Hn.
   Qed.
+
+  Definition finalized_as (st : state) (m0 : cmeta) (fi : list sfile) (files : dir D) : Prop :=
+    fin st (key_of m0) = Some (mkFDir (adel bytes_eqb snapshot_flag_filename files) (to_message m0 fi)) /\
+    In (to_message m0 fi) (s_out st) /\
+    trk st (key_of m0) = None /\ tmp st (tkey_of m0) = None.
+
+  Lemma deliver_rest :
+    forall m0 ops j r, delivers m0 j r ops ->
+    forall h (st st' : state) v fi files tk0 v' files',
+      j <> 0 -> inv h st -> mid2 st m0 v fi files j tk0 -> tk0 <= s_tick st ->
+      s_tick st + count_ticks ops < tk0 + timeout ->
+      same_stream D my_did m0 r -> ids_from D j r -> last_only D r ->
+      vfoldM v r = Some v' -> vfinal v' = true -> replayM files r = Some files' ->
+      runM st ops = Some st' ->
+      finalized_as st' m0 (fileinfos D fi r) files'.
+  Proof.
+    intros m0 ops j r Hd. induction Hd as [j|j [m d] r ops Hd IH|j c r o ops Hn Hd IH];
+      intros h st st' v fi files tk0 v' files' Hj Hi Hm Htk Hbud Hs Hid Hl Hv Hf Hr Hrun.
+    - destruct Hl.
+    - (* the next chunk of the stream *)
+      inversion Hs as [|? ? [Hk [Hfrom [Hdid Hbv]]] Hs']; subst. simpl in Hk, Hfrom, Hdid, Hbv.
+      destruct Hid as [Hidm Hid'].
+      destruct (vfold_cons _ _ _ _ Hv) as [v1 [Hv1 Hv1r]].
+      destruct (replay_cons _ _ _ _ Hr) as [files1 [Hr1 Hr1r]].
+      destruct Hm as [Ht [Htmp [Hfin Hrm]]].
+      pose proof (stream_step st m0 v fi files j tk0 m d v1 files1 Hj Ht Htmp Hrm Hk Hfrom Hdid Hbv Hidm Hv1 Hr1) as Hadd.
+      cbv zeta in Hadd.
+      simpl in Hrun. rewrite Hadd in Hrun.
+      destruct r as [|c2 r].
+      + (* it is the last one *)
+        inversion Hd; subst.
+        simpl in Hl, Hv1r, Hr1r. injection Hv1r as E1. injection Hr1r as E2. subst v1 files1.
+        rewrite Hl in Hrun. unfold finish in Hrun. simpl t_v in Hrun. rewrite Hf in Hrun. simpl in Hrun.
+        rewrite Hk, (tkey_of_same _ _ Hk Hfrom) in Hrun.
+        rewrite alookup_aset_same in Hrun by exact tkey_eqb_eq.
+        rewrite Hfin in Hrun. injection Hrun as Hrun. subst st'.
+        unfold finalized_as. simpl.
+        rewrite alookup_adel_same by exact key_eqb_eq.
+        rewrite alookup_adel_same by exact tkey_eqb_eq.
+        rewrite alookup_aset_same by exact key_eqb_eq.
+        repeat split; auto.
+      + destruct Hl as [Hnl Hl]. rewrite Hnl in Hrun, Hadd.
+        remember (set_temps
+                    (track (key_of m0) (mkTracked m0 v1 (add_fileinfo m fi) (s_tick st) (j + 1))
+                           (track (key_of m0) (mkTracked m0 v (add_fileinfo m fi) (s_tick st) (j + 1)) st))
+                    (aset tkey_eqb (tkey_of m0) files1
+                          (s_temps (track (key_of m0) (mkTracked m0 v1 (add_fileinfo m fi) (s_tick st) (j + 1))
+                                          (track (key_of m0) (mkTracked m0 v (add_fileinfo m fi) (s_tick st) (j + 1)) st)))))
+          as s1 eqn:Es1.
+        assert (Hi1 : inv (h ++ [(m, d)]) s1) by (eapply add_inv; [exact Hi|exact Hadd]).
+        assert (Hm1 : mid2 s1 m0 v1 (add_fileinfo m fi) files1 (j + 1) (s_tick st)).
+        { subst s1. unfold mid2. simpl.
+          rewrite alookup_aset_same by exact key_eqb_eq.
+          rewrite alookup_aset_same by exact tkey_eqb_eq.
+          repeat split; auto. }
+        assert (Hj1 : j + 1 <> 0) by lia.
+        assert (Ht1 : s_tick s1 = s_tick st) by (subst s1; reflexivity).
+        eapply (IH (h ++ [(m, d)]) s1 st' v1 (add_fileinfo m fi) files1 (s_tick st) v' files' Hj1 Hi1 Hm1); eauto.
+        * rewrite Ht1. lia.
+        * rewrite Ht1. change (count_ticks (OAdd (m, d) :: ops)) with (count_ticks ops) in Hbud. lia.
+    - (* something else in between *)
+      simpl in Hrun.
+      destruct (stepM st o) as [s1 b|] eqn:Hs1; [|discriminate].
+      assert (Hb : o = OTick -> s_tick st + 1 < tk0 + timeout).
+      { intro X. subst o. change (count_ticks (OTick :: ops)) with (1 + count_ticks ops) in Hbud. lia. }
+      destruct (noise_step h st s1 m0 v fi files j tk0 o b Hi Hm Hj Htk Hn Hb Hs1) as [Hm1 Ht1].
+      pose proof (step_inv _ _ _ _ _ Hi Hs1) as Hi1.
+      eapply (IH _ s1 st' v fi files tk0 v' files' Hj Hi1 Hm1); eauto.
+      + rewrite Ht1. lia.
+      + rewrite Ht1. destruct o;
+          [change (count_ticks (OAdd c0 :: ops)) with (count_ticks ops) in Hbud
+          |change (count_ticks (OTick :: ops)) with (1 + count_ticks ops) in Hbud
+          |change (count_ticks (ORemoved shard replica :: ops)) with (count_ticks ops) in Hbud
+          |change (count_ticks (OClose :: ops)) with (count_ticks ops) in Hbud]; lia.
+  Qed.
+
+  (* finalize <= complete valid sequence *)
+  Lemma complete_sequence_finalizes_proved :
+    forall h (st st' : state) m0 d0 r ops v' files',
+      inv h st -> clean D V max_slots st m0 ->
+      delivers m0 1 r ops -> count_ticks ops < timeout ->
+      same_stream D my_did m0 ((m0, d0) :: r) -> ids_from D 0 ((m0, d0) :: r) -> last_only D ((m0, d0) :: r) ->
+      vfoldM vinit ((m0, d0) :: r) = Some v' -> vfinal v' = true ->
+      replayM [] ((m0, d0) :: r) = Some files' ->
+      runM st (OAdd (m0, d0) :: ops) = Some st' ->
+      finalized_as st' m0 (fileinfos D [] ((m0, d0) :: r)) files'.
+  Proof.
+    intros h st st' m0 d0 r ops v' files' Hi Hc Hd Hbud Hs Hid Hl Hv Hf Hr Hrun.
+    inversion Hs as [|? ? [_ [_ [Hdid Hbv]]] Hs']; subst. simpl in Hdid, Hbv.
+    destruct Hid as [Hid0 Hid'].
+    destruct (vfold_cons _ _ _ _ Hv) as [v1 [Hv1 Hv1r]].
+    destruct (replay_cons _ _ _ _ Hr) as [files1 [Hr1 Hr1r]].
+    pose proof (first_step st m0 d0 v1 files1 Hc Hdid Hbv Hid0 Hv1 Hr1) as Hadd. cbv zeta in Hadd.
+    destruct Hc as [Ht [Hfull [Htmp [Hfin Hrm]]]].
+    simpl in Hrun. rewrite Hadd in Hrun.
+    destruct r as [|c2 r].
+    - inversion Hd; subst.
+      simpl in Hl, Hv1r, Hr1r. injection Hv1r as E1. injection Hr1r as E2. subst v1 files1.
+      rewrite Hl in Hrun. unfold finish in Hrun. simpl t_v in Hrun. rewrite Hf in Hrun. simpl in Hrun.
+      rewrite alookup_aset_same in Hrun by exact tkey_eqb_eq.
+      rewrite Hfin in Hrun. injection Hrun as Hrun. subst st'.
+      unfold finalized_as. simpl.
+      rewrite alookup_adel_same by exact key_eqb_eq.
+      rewrite alookup_adel_same by exact tkey_eqb_eq.
+      rewrite alookup_aset_same by exact key_eqb_eq.
+      repeat split; auto.
+    - destruct Hl as [Hnl Hl]. rewrite Hnl in Hrun, Hadd.
+      remember (set_temps
+                  (track (key_of m0) (mkTracked m0 v1 (add_fileinfo m0 []) (s_tick st) 1)
+                         (track (key_of m0) (mkTracked m0 v1 (add_fileinfo m0 []) (s_tick st) 1) st))
+                  (aset tkey_eqb (tkey_of m0) files1
+                        (aset tkey_eqb (tkey_of m0) []
+                              (s_temps (track (key_of m0) (mkTracked m0 v1 (add_fileinfo m0 []) (s_tick st) 1)
+                                              (track (key_of m0) (mkTracked m0 v1 (add_fileinfo m0 []) (s_tick st) 1) st))))))
+        as s1 eqn:Es1.
+      assert (Hi1 : inv (h ++ [(m0, d0)]) s1) by (eapply add_inv; [exact Hi|exact Hadd]).
+      assert (Hm1 : mid2 s1 m0 v1 (add_fileinfo m0 []) files1 1 (s_tick st)).
+      { subst s1. unfold mid2. simpl.
+        rewrite alookup_aset_same by exact key_eqb_eq.
+        rewrite alookup_aset_same by exact tkey_eqb_eq.
+        repeat split; auto. }
+      assert (H1 : (1 : N) <> 0) by lia.
+      assert (Ht1 : s_tick s1 = s_tick st) by (subst s1; reflexivity).
+      simpl in Hid'.
+      eapply (deliver_rest m0 ops 1 (c2 :: r) Hd (h ++ [(m0, d0)]) s1 st' v1 (add_fileinfo m0 []) files1 (s_tick st) v' files' H1 Hi1 Hm1); eauto.
+      + rewrite Ht1. lia.
+      + rewrite Ht1. lia.
+  Qed.
 End Inv.
